@@ -81,7 +81,7 @@ def run(cmd, timeout=None, mem_gb=None, cwd=None, env=None):
 
 def resolve_unwindset(gb, inst, workdir):
     """Map (file regex, source-line regex, N) to CBMC loop ids of the current build."""
-    inst_unwindset = list(inst.unwindset) + [(r"verif\.h", r"i_ < NIN", 1024)]
+    inst_unwindset = list(inst.unwindset) + [(r"verif\.h", r"i_ < NIN", 1024), (r"libc_model\.c", r"for \(int k = 15; k >= 0", 17), (r"libc_model\.c", r"for \(int k = 0; k < 16", 17)]
     rc, out, err, _ = run(["cbmc", gb, "--show-loops", "--json-ui", "--drop-unused-functions"], timeout=120)
     loops = []
     try:
